@@ -53,7 +53,8 @@ namespace Pistache
 
         typename Base::int_type snext() const
         {
-            if (this->gptr() == this->egptr())
+            // the character *after* the current one: needs two available characters
+            if (this->egptr() - this->gptr() < 2)
             {
                 return traits_type::eof();
             }
